@@ -125,6 +125,7 @@ class StubSPI:
         self.symbolic = symbolic
         self.calls = []
         self.fail_at = fail_at
+        self.fail_if = None
         self.ode_steps_to_converge = 2
         self.ode_instances = []
 
@@ -143,7 +144,9 @@ class StubSPI:
         pvals = param_values_of(fun)
         self.calls.append({"y0": y0, "t_span": (t0, tf), "t_eval": t_eval, "p": pvals, "jac": jac, "method": method})
         r = _Res()
-        if self.fail_at is not None and len(self.calls) - 1 == self.fail_at:
+        if (self.fail_at is not None and len(self.calls) - 1 == self.fail_at) or (
+            self.fail_if is not None and self.fail_if(pvals, y0)
+        ):
             r.success = False
             r.t = []
             r.y = []
@@ -193,6 +196,9 @@ class _Ode:
                     pvals = param_values_of(obj.rhs)
         except Exception:  # noqa: BLE001
             pass
+        if self.spi.fail_if is not None and self.spi.fail_if(pvals, self.y0):
+            # an integration that never settles: the state keeps moving by 1 per step
+            return np.array([v + self.n for v in self.y0], dtype=object if self.spi.symbolic else float)
         if self.spi.symbolic:
             if self.n >= self.spi.ode_steps_to_converge:
                 y = self.last
